@@ -3,7 +3,7 @@
    The specification side is a set of independent *server-side parsers* (srv_parse4,
    srv_parse_greeting, srv_parse_auth, srv_parse_connect): each theorem says the server reads
    back exactly the intended fields from the bytes the client sends. *)
-From AV Require Import Base Gen_socks Socks SocksProofs.
+From AV Require Import Base Gen_socks Socks SocksProofs SocksCode SocksCodeProofs.
 
 (* the literals extracted from the running code are the protocol constants *)
 Theorem C16_literals :
@@ -90,6 +90,50 @@ Example C16_ex5 :
   request_connection c = [5; 1; 0; 3; 3; 97; 46; 98; 1; 187]%N /\ dest_wf (c_dest c).
 Proof. split; [reflexivity|cbn; lia]. Qed.
 
+(* ---- the request builders as the SOURCE has them: SOCKS4._start (SOCKS4a inherits it), SOCKS5._destination_bytes and
+   SOCKS5._authentication are translated statement by statement on every run (gen/Gen_socks.v); model/SocksCode.v runs the
+   statements; for every destination, port and credential the run gives the bytes of the model's builders, about which the
+   theorems above speak.  A construct the translator does not know makes the first theorem fail. ---- *)
+Theorem C16_builder_code_known :
+  sknown 6 socks4_start_code && sknown 6 socks5_destination_code && sknown 6 socks5_authentication_code
+  && socks4a_inherits_start && random_auth_is_user_auth = true.
+Proof. exact builders_known. Qed.
+
+Theorem C16_socks4_request_from_source : forall p d port a, (forall x, d <> DV6 x) ->
+  run_builder socks4_start_code {| i_dest := d; i_port := port; i_auth := a |} =
+  RBytes (start4 {| c_proto := p; c_dest := d; c_port := port; c_auth := a |}).
+Proof. exact start4_generated. Qed.
+
+Theorem C16_socks5_destination_from_source : forall d port a,
+  match d with DHost h => length h <= 255 | _ => True end ->
+  run_builder socks5_destination_code {| i_dest := d; i_port := port; i_auth := a |} = RBytes (destination_bytes d port).
+Proof. exact destination_generated. Qed.
+
+Theorem C16_socks5_long_name_refused_from_source : forall h port a, 255 < length h ->
+  run_builder socks5_destination_code {| i_dest := DHost h; i_port := port; i_auth := a |} = RAssert.
+Proof. exact destination_long_name_asserts. Qed.
+
+Theorem C16_socks5_authentication_from_source : forall d port a,
+  run_builder socks5_authentication_code {| i_dest := d; i_port := port; i_auth := a |} =
+  match authentication a with
+  | Some _ => RProto
+  | None => RPair (auth_bytes a) (auth_methods a)
+  end.
+Proof. exact authentication_generated. Qed.
+
+(* composed with the exactness theorems: the server-side parser reads the intended fields back from the bytes the
+   TRANSLATED SOCKS4a code builds - the host name octet for octet, whatever its letters *)
+Theorem C16_socks4a_source_request_parses : forall h port a,
+  (port < 65536)%N -> no_nul (match a with Some x => a_user x | None => [] end) -> no_nul h ->
+  exists m, run_builder socks4_start_code {| i_dest := DHost h; i_port := port; i_auth := a |} = RBytes m /\
+            srv_parse4 m = Some {| r4_cmd := 1; r4_port := port; r4_ip := [0; 0; 0; 1]%N;
+                                   r4_user := match a with Some x => a_user x | None => [] end; r4_host := Some h |}.
+Proof.
+  intros h port a Hp Hu Hh. eexists. split.
+  - apply (start4_generated P4a). intros x E. discriminate E.
+  - exact (socks4a_exact {| c_proto := P4a; c_dest := DHost h; c_port := port; c_auth := a |} h eq_refl Hp Hu Hh).
+Qed.
+
 Print Assumptions C16_literals.
 Print Assumptions C16_socks4_exact.
 Print Assumptions C16_socks4a_exact.
@@ -101,3 +145,9 @@ Print Assumptions C16_socks5_connect_exact.
 Print Assumptions C16_socks5_sent.
 Print Assumptions C16_auth_only_if_selected.
 Print Assumptions C16_rejections.
+Print Assumptions C16_builder_code_known.
+Print Assumptions C16_socks4_request_from_source.
+Print Assumptions C16_socks5_destination_from_source.
+Print Assumptions C16_socks5_long_name_refused_from_source.
+Print Assumptions C16_socks5_authentication_from_source.
+Print Assumptions C16_socks4a_source_request_parses.
